@@ -28,7 +28,7 @@ TECHNIQUE = ("scripted-socket fault enumeration (per send() call: accept all / h
              "longer scripts; stream-prefix/completeness oracle on the bytes the socket accepted")
 LEVEL_TEXT = ("Fault enumeration: every script of 4 (thorough: 5) per-call socket outcomes from {accept all, accept half, accept 0, "
               "EAGAIN, fatal} is run against 3 (thorough: 4) queued messages of sizes below and above PIPE_BUF, under 4 placements "
-              "of the sends relative to the flush rounds, for both the controller connection with the real DeferredSender thread and "
+              "of the sends relative to the flush rounds (controller: a fifth with only one connection writable per round), for both the controller connection with the real DeferredSender thread and "
               "the switch-side I/O worker in the real I/O loop (send, send_fast, mixed; with and without shutdown), always with a "
               "second connection sharing the sender/loop. Hypothesis adds longer scripts (up to 14 outcomes with arbitrary k), "
               "1-6 messages of 8..70000 bytes, arbitrary writable masks, select time-outs, read-loop visits, hand-over at every "
@@ -50,8 +50,9 @@ ASSUMPTIONS = [
 ]
 EXHAUSTIVE_SCOPE = {
   "quick": "both sides: 5^4 scripts {all, half, 0, EAGAIN, EPIPE} x 3 messages (ctl: every size sequence over {8, 5000}; sw: 4 size "
-           "sequences over {8, 9000}: all small, all big, alternating) x 4 op placements (x 3 API mixes send/send_fast/mixed x shutdown "
-           "yes/no on the switch side), second connection always present",
+           "sequences over {8, 9000}: all small, all big, alternating) x 4 op placements, all connections writable in every round (ctl: plus "
+           "a fifth placement in which only one of the two connections is writable per round; sw: x 3 API mixes send/send_fast/mixed x "
+           "shutdown yes/no), second connection always present",
   "thorough": "as quick with 5^5 scripts x 4 messages",
 }
 
@@ -419,6 +420,16 @@ def _ctl_patterns(n, tail):
       return ops
     yield build
 
+  def masked(sizes, bsize):
+    # only one connection writable per round: the other keeps its parked bytes while the sender goes idle for the first
+    ops = [["send", 0, sizes[0], 0], ["send", 1, bsize, 0], ["go", 1, 0], ["send", 1, 8, 0], ["go", 1, 0]]
+    for j in range(1, n):
+      ops.append(["send", 0, sizes[j], 0])
+      ops.append(["go", 2 if j == 1 else 3, 0])
+    ops.extend([list(G) for _ in range(tail)])
+    return ops
+  yield masked
+
 
 def _enum_ctl(tier):
   n, calls = (3, 4) if tier == "quick" else (4, 5)
@@ -580,6 +591,6 @@ def plan(tier):
   return [
     Enum("ctl-grid", lambda: _enum_ctl(tier), shards=16),
     Enum("sw-grid", lambda: _enum_sw(tier), shards=16),
-    Hyp("ctl-scripts", lambda: _ctl_case(tier), examples=8000 if q else 400000, shards=16),
-    Hyp("sw-scripts", lambda: _sw_case(tier), examples=8000 if q else 400000, shards=16),
+    Hyp("ctl-scripts", lambda: _ctl_case(tier), examples=8000 if q else 300000, shards=16),
+    Hyp("sw-scripts", lambda: _sw_case(tier), examples=8000 if q else 300000, shards=16),
   ]
